@@ -207,6 +207,7 @@ def enumerate_fault_points(tier):
 def sampled_fault(draw):
     cfg = draw(gen.e2e_config(front=("single", "joint"), max_N=2, max_W=2, max_K=3, t_range=(30, 60), limits=(1, 2, 3, 5),
                               lam_forms=("scalar",), beta_forms=("scalar",), betas=(0.5, 2.0, 10.0, 100.0)))
+    cfg["prior_run_override"] = None        # faults are counted from the start of the call under test: no call before it
     kind = draw(st.sampled_from(["task", "task", "phase", "no_donor", "wrong_input", "bad_lambda"]))
     f = {"kind": kind, "round": draw(st.integers(0, 4)), "cluster": draw(st.integers(0, 2)), "phase": draw(st.sampled_from(list(PHASES))),
          "exc": draw(st.sampled_from(list(faults.EXC_TYPES))), "workers": draw(st.sampled_from([1, 1, 2, 3, 4])),
